@@ -334,6 +334,7 @@ func (e recEv) String() string {
 }
 
 type recorder struct {
+	inflight int32
 	mu  sync.Mutex
 	evs []recEv // receiver events
 	all []recEv // receiver + middleware events interleaved
@@ -453,6 +454,11 @@ func pidStr(p *actor.PID) string {
 }
 
 func (a *scriptedActor) Receive(c *actor.Context) {
+	// one delivery at a time: a second worker on the same actor shows up here
+	if atomic.AddInt32(&a.rec.inflight, 1) != 1 {
+		a.rec.add(recEv{Inc: a.inc, Kind: "OVERLAPPING-DELIVERY"}, true)
+	}
+	defer atomic.AddInt32(&a.rec.inflight, -1)
 	sender := pidStr(c.Sender())
 	switch m := c.Message().(type) {
 	case actor.Initialized:
@@ -498,6 +504,9 @@ func (a *scriptedActor) Receive(c *actor.Context) {
 		a.rec.add(recEv{Inc: a.inc, Kind: "Stopped", ID: int(seq)}, true)
 	case *uMsg:
 		a.rec.add(recEv{Inc: a.inc, Kind: m.Kind.String(), ID: m.ID, Sender: sender}, true)
+		if m.Kind == itMsg {
+			userPerturb() // a Receive takes time (only in the chaos modes)
+		}
 		switch m.Kind {
 		case itGate:
 			m.gate.once.Do(func() { close(m.gate.entered) })
